@@ -483,6 +483,43 @@ def run_reset(ck: Check):
         ck.count("callbacks_after_copy_cases")
         if not (ok_reset and ok_hist):
             ck.violation(dict(clause="callbacks-attached", scenario=how), dict(what=f"after {how} of a detector its callbacks no longer act on the copy (reset callback / history callback)", reset_callback_ok=ok_reset, history_callback_ok=ok_hist, error=err))
+    # a reset callback OBJECT used with one detector and, once that detector is done with, attached to a new one: it resets the
+    # detector it is attached to NOW.  And update() called with a further keyword argument (its signature is
+    # update(value, **kwargs)) while a history callback is attached: no interference, one entry per update (deterministic)
+    try:
+        cbr = ResetStatisticalTest(alpha=0.5)
+        ref, x = np.arange(30, dtype=float), np.arange(30, dtype=float) + 12.0
+        dA = KSTest(callbacks=[cbr])
+        dA.fit(X=ref)
+        dA.compare(X=ref)            # p = 1: no reset
+        dB = KSTest(callbacks=[cbr])
+        dB.fit(X=ref)
+        rB, _ = dB.compare(X=x)      # p << alpha: dB must be reset, dA untouched
+        ok_re = dB.X_ref is None and dA.X_ref is not None and rB is not None
+        err = None
+    except Exception as e:  # noqa: BLE001
+        ok_re, err = False, repr(e)
+    ck.case(dict(kind="reset-callback-reattached"), nontrivial=True, key=repr(("cb-reattach",)))
+    ck.count("reset_callback_reattached_cases")
+    if not ok_re:
+        ck.violation(dict(clause="reset-iff", scenario="callback-reattached"), dict(what="a reset callback used with a first detector and then attached to a second one did not reset the second detector on p <= alpha (or reset the first one)", error=err))
+    from frouros.detectors.concept_drift import CUSUM as _CU2
+
+    for mk, nm in ((lambda cb: _DDM2(callbacks=cb), "DDM"), (lambda cb: _CU2(callbacks=cb), "CUSUM")):
+        try:
+            bare, withcb = mk([]), mk([_H2(name="h")])
+            vals = [0, 1, 1, 0, 1]
+            for i, v in enumerate(vals):
+                bare.update(value=v, sample_id=i)
+                lg = withcb.update(value=v, sample_id=i)
+            ok_kw = [scalar(x) for x in lg["h"]["value"]] == [scalar(v) for v in vals] and int(withcb.num_instances) == int(bare.num_instances) == len(vals) and bool(withcb.drift) == bool(bare.drift)
+            err = None
+        except Exception as e:  # noqa: BLE001
+            ok_kw, err = False, repr(e)
+        ck.case(dict(kind="update-with-extra-keyword", detector=nm), nontrivial=True, key=repr(("upd-kw", nm)))
+        ck.count("update_extra_keyword_cases")
+        if not ok_kw:
+            ck.violation(dict(clause="non-interference", scenario="update-with-extra-keyword", detector=nm), dict(what="update(value=..., sample_id=...) works on the bare detector but, with a history callback attached, raises or records something else than one entry per update", detector=nm, error=err))
     res = coq_eval("C17r", HDR17, exprs, shard=60)
     for (name, alpha, ops, cur, outs), r in zip(cases, res):
         ck.corr_cases += 1
